@@ -442,8 +442,8 @@ func det01Workload(args []string) int {
 				{name: "perturbed-schedule", env: []string{hooks, fmt.Sprintf("VERIF_HOOK_SEED=%d", rng.Int63()), "GOMAXPROCS=2"}},
 				{name: "restarts-in-process@" + rs, args: []string{"-restarts", rs}},
 				{name: "restart-after-every-block", args: []string{"-restarts", "all"}},
-				// consensus runs ahead of the executor: up to 8 blocks are in the executor's stages at once, and the
-				// commits are slowed down so that the next blocks really run on uncommitted predecessors
+				// consensus runs ahead of the executor: up to 8 blocks are queued in the executor's stages at once (the
+				// signature stage works on later blocks while the execute-and-persist stage is busy), persists slowed down
 				{name: "pipelined-x8", args: []string{"-pipeline", "8"}, env: []string{"VERIF_HOOKS=ledger.persist.state.begin=sleep:30000:0.7,ledger.persist.chain.begin=sleep:20000:0.5", fmt.Sprintf("VERIF_HOOK_SEED=%d", rng.Int63())}},
 				{name: fmt.Sprintf("restart-new-process@1,%d,%d", split1, split2), procs: [][2]uint64{{1, 1}, {2, split1}, {split1 + 1, split2}, {split2 + 1, 0}}},
 				{name: fmt.Sprintf("repeat-x%d", nrep), repeats: nrep},
